@@ -494,7 +494,7 @@ impl Prop for C15 {
         v
     }
     fn rule() -> String {
-        "seeded reader schedules (<= 300 calls of read_sample / sample_offset / sample_count / all track accessors / movie accessors / metadata; ids biased to 0,1,2,count-1,count,count+1,u32::MAX; unknown track ids; immediate repeats, A-B-A patterns, descending sweeps) over muxer-made, canned and packager images (fragmented ones also as init+segment), with transient hard stream faults inside some read_sample calls (the stream under the long-lived reader may split transfers or report EINTR, so a fault can land in the middle of a sample; fresh readers use a plain stream); every non-faulted call must equal the answer of a fresh reader asked once, in particular the call right after a faulted one; the same muxing history run twice must give identical bytes and the same bytes opened twice equal structures; distinct_nontrivial = distinct schedule shapes (sequence of call kinds with repeats collapsed, bucketed length); three cases per run mux their history twice with 1.1 s of real time between the runs (the only real delay in the machinery: the library reads no clock, so there is no seam to put one behind; an output that depends on the time of day shows here)".into()
+        "seeded reader schedules (<= 300 calls of read_sample / sample_offset / sample_count / all track accessors / movie accessors / metadata; ids biased to 0,1,2,count-1,count,count+1,u32::MAX; unknown track ids; immediate repeats, A-B-A patterns, descending sweeps) over muxer-made, canned and packager images (fragmented ones also as init+segment, the segment opened through the init reader, through a reader that was itself opened on a segment, or through a reader of the whole fragmented stream - all judged against the init-reader answer), with transient hard stream faults inside some read_sample calls (the stream under the long-lived reader may split transfers or report EINTR, so a fault can land in the middle of a sample; fresh readers use a plain stream); every non-faulted call must equal the answer of a fresh reader asked once, in particular the call right after a faulted one; the same muxing history run twice must give identical bytes and the same bytes opened twice equal structures; distinct_nontrivial = distinct schedule shapes (sequence of call kinds with repeats collapsed, bucketed length); three cases per run mux their history twice with 1.1 s of real time between the runs (the only real delay in the machinery: the library reads no clock, so there is no seam to put one behind; an output that depends on the time of day shows here)".into()
     }
     fn assumptions() -> Vec<String> {
         vec![
@@ -503,6 +503,6 @@ impl Prop for C15 {
         ]
     }
     fn mandatory_probes(_t: Tier) -> Vec<&'static str> {
-        vec!["transient_faults_fired", "double_mux_runs", "probe.double_mux_across_a_second_boundary", "image.frag", "image.canned_frag", "calls_compared"]
+        vec!["transient_faults_fired", "double_mux_runs", "probe.double_mux_across_a_second_boundary", "image.frag", "image.canned_frag", "calls_compared", "probe.segment_opened_through_a_segment_reader", "probe.segment_opened_through_a_whole_stream_reader"]
     }
 }
